@@ -273,6 +273,7 @@ def main_check(prop, tier, seed, replay=None):
                     f'(Print Assumptions under every theorem)',
         trusted_base=KERNEL_TB + list(prop.trusted_base),
         theorems=pres['theorems'],
+        kernel_checked_examples=pres.get('examples', []),
         axioms_per_theorem=pres['axioms'],
         evaluations=evaluations,
         distinct_nontrivial=dn,
